@@ -26,6 +26,8 @@ PLANS = {
     ]},
     "C09": {"stages": [
         st("rel", "hist", 150000, 3000000, death_prop="C03", floor={"process_calls": 40000}),
+        # failing calls: the error path of process_into_buffer must be allocation-free as well
+        st("rel", "bad", 30000, 400000, death_prop="C03", reseed=True, floor={"malformed_calls": 30000}),
     ]},
 }
 
@@ -36,7 +38,8 @@ RULES = {
     "C04": "same generator as C03; every call is bracketed by getter reads and sentinel/poison scans; distinct = distinct "
            "(sample type, configuration class, history shape) tuples",
     "C09": "same generator as C03 in the release build with default features (log off); allocator events are counted on the "
-           "calling thread while armed around process_into_buffer, the setters, reset and the getters",
+           "calling thread while armed around process_into_buffer, the setters, reset and the getters; second stage: malformed "
+           "process_into_buffer calls (every shape of C13) injected into valid histories, armed the same way",
 }
 
 ASSUMPTIONS = {
